@@ -442,7 +442,8 @@ class DiffEqSolver:
         """
         coeffs = self._coeffs[self._coeff_range[I]]
 
-        rhoVec = np.zeros(self._rspline.greville.size)
+        # The right hand side may be complex (like the modes of a grid)
+        rhoVec = np.zeros(self._rspline.greville.size, dtype=complex)
 
         for j in range(self._rspline.nbasis):
             self._rspline[j].eval_vector(
